@@ -733,3 +733,93 @@ def _fmt(m, o):
     else:
         call = lambda: x.to_str(spec)
     return a, (lambda: (call(), twin)), 'fmt', {}
+
+
+# ---- settings spellings (C14) ----------------------------------------------------------------------
+def leaf_to_py(lib, l, rng_choice=None):
+    """One leaf -> list of python elements that must stay adjacent at one nesting level."""
+    k = l['k']
+    if k == 'name':
+        if l.get('as') == 'fmt':
+            return [getattr(lib.AnsiFormat, l['mname'])]
+        return [l['v']]
+    if k == 'ints':
+        enc = l.get('enc', 'int')
+        if enc == 'int':
+            return list(l['v'])
+        if enc == 'str':
+            return [str(x) for x in l['v']]
+        if enc == 'joined':
+            return [';'.join(str(x) for x in l['v'])]
+        return [x if i % 2 else str(x) for i, x in enumerate(l['v'])]
+    if k == 'verb':
+        return [lib.AnsiSetting(l['v'])] if l.get('as') == 'aset' else ['[' + l['v']]
+    if k == 'rgbs':
+        return [l['v']]
+    if k == 'rgbc':
+        fn = getattr(lib.AnsiFormat, l['api'])
+        if l.get('comp_kw'):
+            return [fn(*l['args'], component=getattr(lib.ColorComponentType, l['comp_kw']))]
+        return [fn(*l['args'])]
+    raise ValueError(k)
+
+
+def nest(elems_per_leaf, shape):
+    """shape: list of (first_leaf, last_leaf, 'list'|'tuple') groupings, innermost first, non-crossing.
+    Returns the top-level argument list; the elements of one leaf always stay adjacent at one level."""
+    seq = [(i, i, e) for i, es in enumerate(elems_per_leaf) for e in es]      # (first leaf, last leaf, object)
+    for a, b_, kind in shape:
+        pos = [j for j, t in enumerate(seq) if t[0] >= a and t[1] <= b_]
+        if not pos:
+            continue
+        lo, hi = pos[0], pos[-1]
+        inner = [t[2] for t in seq[lo:hi + 1]]
+        seq[lo:hi + 1] = [(a, b_, inner if kind == 'list' else tuple(inner))]
+    return [t[2] for t in seq]
+
+
+@op('scrub')
+def _scrub(m, o):
+    lib = m.lib
+    leaves = o['leaves']
+    elems = [leaf_to_py(lib, l) for l in leaves]
+    arg = nest(elems, o.get('shape', []))
+    if o.get('join_str'):
+        # several directives in one ';'-separated string where every element is a str not starting with '['
+        if arg and all(isinstance(x, str) and not x.startswith('[') and x != '' for x in arg):
+            arg = [';'.join(arg)]
+    selfref = 0
+    if o.get('selfref'):
+        lst = list(arg)
+        lst.append(lst)
+        arg = [lst]
+        selfref = 1
+    badtype = 0
+    if o.get('badtype'):
+        arg = list(arg) + [o['badtype'] == 'float' and 1.5 or {'a': 1}]
+        badtype = 1
+    single = o.get('single') and len(arg) == 1
+    tl = []
+    for l in leaves:
+        d = {'k': l['k']}
+        if l['k'] == 'name':
+            d.update({'v': cps(l['v']), 'mname': cps(l.get('mname', '')), 'known': b(l.get('known', 1)),
+                      'member': m.texts.tids([str(x) for x in getattr(lib.AnsiFormat, l['mname']).ansi_settings]) if l.get('known', 1) else []})
+        elif l['k'] == 'ints':
+            d['v'] = [clamp(x) for x in l['v']]
+        elif l['k'] in ('verb', 'rgbs'):
+            d['v'] = cps(l['v'])
+        elif l['k'] == 'rgbc':
+            d.update({'fn': l['fn'], 'comp': l['comp'], 'args': [clamp(x) for x in l['args']]})
+        tl.append(d)
+    a = {'leaves': tl, 'selfref': selfref, 'badtype': badtype}
+    A = lib.AnsiString
+
+    def call():
+        return A('x', arg[0]) if single else A('x', *arg)
+
+    def obs(v):
+        rep = A('x', *[lib.AnsiSetting(str(s)) for s in v.ansi_settings_at(0)])
+        return {'res': m.texts.tids([str(s) for s in v.ansi_settings_at(0)]), 'q': cps(str(v)), 'rep_q': cps(str(rep)),
+                'valid': b(v.is_formatting_valid()), 'parsable': b(v.is_formatting_parsable())}
+    return a, call, 'scalar', {'obs': obs}
